@@ -22,7 +22,10 @@ def run(tier):
         chk.violation("bulk operation outside the C10 Contract: %s" % ac.pretty_bulk(ev), ac.pretty_bulk(ev))
     for ev in events[3:5]:
         chk.sample(ac.pretty_bulk(ev))
-    chk.count(evaluations=len(events), distinct=len(combos), traces=1)
+    # the extent itself is read from sandbox memory and rewritten after every read
+    import fetchcommon as fc
+    nf, cf = fc.judge(chk, wd, "c10", "C10", ("wasm32", "lp16"))
+    chk.count(evaluations=len(events) + nf, distinct=len(combos) + len(cf), traces=1)
     chk.cov["exhaustive"] = thorough
     chk.cov["scope"] = "9 operations x 7 start classes (null, first/last bytes, interior) x extents 0..region+2 (every 61st; all in " \
                        "the thorough tier) and 2^31, 2^32, 2^63 (+-1), 2^64-k x plain/tainted size operands x element sizes " \
